@@ -75,7 +75,7 @@ func (c *Ctx) Import(run func(*Ctx), fromProp string, keep []string, tag string)
 }
 
 func NewCtx(p *Prog, property, tier string, findings []Finding) *Ctx {
-	return &Ctx{P: p, Property: property, Tier: tier, floors: map[string]int{}, findings: findings}
+	return &Ctx{P: p, Property: property, Tier: tier, floors: map[string]int{}, findings: findings, Notes: append([]string(nil), p.Notes...)}
 }
 
 func (c *Ctx) add(rule, construct, pos, verdict, detail string) {
@@ -267,6 +267,9 @@ func (c *Ctx) Finish(verifDir string, explanation string, start time.Time, extra
 	}
 	sort.Strings(rl)
 	fmt.Println("instances:", strings.Join(rl, " "))
+	for _, n := range c.P.Notes {
+		fmt.Println("note:", n)
+	}
 	for _, o := range c.Obs {
 		switch o.Verdict {
 		case Known:
